@@ -41,6 +41,8 @@ def sig_core(tier, flavors=("bp", "memb")):
         J.append(Job("xgp_bp", "sig", "1,0,0,1", dict(P0, target=2, main_registered=0, init_reader_count=2), env, workers=8))
         J.append(Job("xgp_bp", "sig", "1,0,0,1", dict(P0, target=2, main_registered=0, forkh=1), env, workers=8))
         J.append(Job("xgp_bp", "sig", "1,0,0,1", dict(P0, target=1, main_registered=1), env, workers=8))
+        for follow in (0, 1):
+            J.append(Job("xgp_bp", "sig_fork", "1,0,0,1", dict(P0, fork_follow=follow, main_registered=0), env, workers=4))
     if "memb" in flavors:
         env = GP_ENV["memb"]
         J.append(Job("xgp_memb", "sig", "1,0,1,1", dict(P0, target=2), env, workers=8))
